@@ -1,3 +1,4 @@
+import math
 from abc import ABC, abstractmethod
 from dataclasses import dataclass, field
 from typing import TYPE_CHECKING, Any, TypeAlias
@@ -67,6 +68,15 @@ class ConstBase(Transformable["Const"], ABC):
         return self.transform(Substituter(subst))
 
 
+def _float_signs(value: Any) -> Any:
+    """Collects the signs of all floats in a (possibly nested) constant value."""
+    if isinstance(value, float):
+        return math.copysign(1.0, value)
+    if isinstance(value, tuple | list):
+        return tuple(_float_signs(v) for v in value)
+    return None
+
+
 @dataclass(frozen=True)
 class ConstValue(ConstBase):
     """A constant value in the type system.
@@ -77,6 +87,21 @@ class ConstValue(ConstBase):
 
     # TODO: We will need a proper Guppy representation of this in the future
     value: Any
+
+    def __eq__(self, other: object) -> bool:
+        """Two constant values are equal if they have the same type and value.
+
+        Python considers `0.0 == -0.0`, but they are different constants (for example
+        `1.0 / x` differs), so we also compare the signs of floats. Otherwise, both
+        would share a single monomorphization.
+        """
+        if not isinstance(other, ConstValue):
+            return NotImplemented
+        return (
+            self.ty == other.ty
+            and self.value == other.value
+            and _float_signs(self.value) == _float_signs(other.value)
+        )
 
     def cast(self) -> "Const":
         """Casts an implementor of `ConstBase` into a `Const`."""
